@@ -49,6 +49,9 @@ func genJSONTable(t *rapid.T) hx.Table {
 		for tries := 0; ; tries++ {
 			if rapid.Bool().Draw(t, "plainname") || tries > 3 {
 				name = fmt.Sprintf("c%d", ci)
+				if tries > 3 {
+					name = fmt.Sprintf("c%d.%d", ci, tries) // always ends: a drawn name may equal a plain one
+				}
 			} else {
 				name = genJSONString(t)
 			}
@@ -99,7 +102,7 @@ func genJSONTable(t *rapid.T) hx.Table {
 			nv := rapid.IntRange(1, 5).Draw(t, "nvals")
 			seen := map[string]bool{}
 			var vals []string
-			for len(vals) < nv {
+			for tries := 0; len(vals) < nv && tries < 30; tries++ { // bounded: the draws may keep giving the same string
 				v := genJSONString(t)
 				if !seen[v] {
 					seen[v] = true
